@@ -569,6 +569,28 @@ Section Parser.
     rewrite os_travel. apply wf_set_value. exact db_wf.
   Qed.
 
+  Lemma emitted_multi_faithful_args i lst s o s' : multi_snd_post E i lst s o s' ->
+    forall i', i_args i' = (u64_bytes (multi_n_snd i) :: out_args_pure E lst)
+                            ++ skipn (N.to_nat (multi_min 2 (multi_n_snd i))) (i_args i) ->
+      (be_to_N (argn i' 0) < two64)%N /\ multi_n_dst i' = multi_n_snd i
+      /\ multi_faithful (multi_dst_triples i') /\ length lst = N.to_nat (multi_n_snd i).
+  Proof.
+    intros Hp i' Hi'. destruct Hp. destruct mp_steps as (s0 & s1 & _ & Hsteps & _).
+    destruct (snd_steps_wf _ _ _ _ _ _ _ _ _ Hsteps) as [Hlen Hwf].
+    unfold multi_snd_triples in Hlen. rewrite multi_triples_length in Hlen.
+    pose proof (bigU64_lt (argn i 1)) as Hn. fold (multi_n_snd i) in Hn.
+    assert (A0 : argn i' 0 = u64_bytes (multi_n_snd i)) by (unfold argn; rewrite Hi'; reflexivity).
+    assert (B0 : be_to_N (argn i' 0) = multi_n_snd i) by (rewrite A0; unfold u64_bytes; apply be_to_N_to_be).
+    assert (N0 : multi_n_dst i' = multi_n_snd i).
+    { unfold multi_n_dst. rewrite A0, bigU64_u64_bytes. apply u64_small. exact Hn. }
+    split; [rewrite B0; exact Hn|]. split; [exact N0|]. split; [|exact Hlen].
+    unfold multi_dst_triples. rewrite N0, <- Hlen. change 0%N with (N.of_nat 0).
+    rewrite (multi_triples_out_args i' lst [u64_bytes (multi_n_snd i)] (skipn (N.to_nat (multi_min 2 (multi_n_snd i))) (i_args i)) 0).
+    - apply raw_of_faithful. exact Hwf.
+    - rewrite Hi'. cbn [app]. reflexivity.
+    - reflexivity.
+  Qed.
+
   Theorem emitted_multi_faithful i s o s' :
     f_multi_transfer E i s = (Ok o, s') -> i_caller i = i_rcpt i -> multi_same E i = false ->
     exists args' t,
@@ -581,22 +603,77 @@ Section Parser.
     intros H Heq Hs. destruct (multi_sender_post E Hc _ _ _ _ H Heq) as (lst & Hp).
     pose proof (multi_out_accounts_cross E _ _ _ _ _ Hp Hs) as Ho. cbv zeta in Ho.
     eexists _, _. split; [exact Ho|]. split; [reflexivity|].
-    intros i' Hi'. destruct Hp. destruct mp_steps as (s0 & s1 & _ & Hsteps & _).
-    destruct (snd_steps_wf _ _ _ _ _ _ _ _ _ Hsteps) as [Hlen Hwf].
-    unfold multi_snd_triples in Hlen. rewrite multi_triples_length in Hlen.
-    pose proof (bigU64_lt (argn i 1)) as Hn. fold (multi_n_snd i) in Hn.
-    assert (A0 : argn i' 0 = u64_bytes (multi_n_snd i)) by (unfold argn; rewrite Hi'; reflexivity).
-    assert (B0 : be_to_N (argn i' 0) = multi_n_snd i) by (rewrite A0; unfold u64_bytes; apply be_to_N_to_be).
-    assert (N0 : multi_n_dst i' = multi_n_snd i).
-    { unfold multi_n_dst. rewrite A0, bigU64_u64_bytes. apply u64_small. exact Hn. }
-    split; [rewrite B0; exact Hn|]. split; [exact N0|].
-    unfold multi_dst_triples. rewrite N0, <- Hlen. change 0%N with (N.of_nat 0).
-    rewrite (multi_triples_out_args i' lst [u64_bytes (multi_n_snd i)] (skipn (N.to_nat (multi_min 2 (multi_n_snd i))) (i_args i)) 0).
-    - apply raw_of_faithful. exact Hwf.
-    - rewrite Hi'. cbn [app]. reflexivity.
-    - reflexivity.
+    intros i' Hi'. destruct (emitted_multi_faithful_args _ _ _ _ _ Hp i' Hi') as (H1 & H2 & H3 & _). auto.
+  Qed.
+
+  (* the forwarded call is the reported call: every emitted data string of an accepted transfer call is either the
+     function's own continuation or msg_data of the parser's (call function, call arguments) *)
+  Theorem forwarded_call_is_reported f i s o s' r :
+    exec E f i s = (Ok o, s') ->
+    (forall k fn args, attached_index f i = Some k -> attached_at i k fn args ->
+       pt_call_function r = fn /\ pt_call_args r = args) ->
+    forall oa t, In oa (o_accounts o) -> In t (oc_transfers oa) -> tr_data t <> [] ->
+    (continuation_name f = true /\ exists args, tr_data t = msg_data f args)
+    \/ tr_data t = msg_data (pt_call_function r) (pt_call_args r).
+  Proof.
+    intros H Hr oa t Hoa Ht Hne.
+    destruct (emitted_data_parses_back E Hc _ _ _ _ _ H oa t Hoa Ht Hne) as (fn & args & Hd & _ & [(-> & Hcn & _)|(k & Hk & Ha)]).
+    - left. split; [exact Hcn|]. exists args. exact Hd.
+    - right. destruct (Hr k fn args Hk Ha) as [-> ->]. exact Hd.
   Qed.
 End Parser.
+
+(* ---- the report on the DELIVERED message of a cross-shard multi-transfer = the origin's debits ---- *)
+Section Delivered.
+  Variables E E' : env.
+  Hypothesis Hc : codec_ok (cdc E).
+  Hypothesis Hcdc : cdc E' = cdc E.
+
+  Lemma multi_faithful_cdc trs : multi_faithful E trs -> multi_faithful E' trs.
+  Proof. unfold multi_faithful. rewrite Hcdc. exact (fun H => H). Qed.
+
+  Theorem delivered_multi_report_is_origin_debits i s o s' :
+    f_multi_transfer E i s = (Ok o, s') -> i_caller i = i_rcpt i -> multi_same E i = false ->
+    triples_consistent E s (i_caller i) (multi_snd_triples i) ->
+    exists args' t,
+      o_accounts o = [{| oc_addr := multi_dst i; oc_delta := 0; oc_transfers := [t] |}]
+      /\ tr_data t = msg_data C.BuiltInFunctionMultiESDTNFTTransfer args'
+      /\ forall i' s2 o2 s2', i_args i' = args' -> i_caller i' <> i_rcpt i' -> go_slice_len (i_args i') ->
+           f_multi_transfer E' i' s2 = (Ok o2, s2') -> nonneg_balances E' s2 (i_rcpt i') ->
+           exists r',
+             parse_esdt_transfers (dec_tok (cdc E')) (i_caller i') (i_rcpt i') C.BuiltInFunctionMultiESDTNFTTransfer (i_args i') = Ok r'
+             /\ pt_rcv r' = i_rcpt i'
+             /\ report_moves r' = debit_list (multi_snd_triples i)
+             /\ ledger_moved E' s2 s2' None (Some (i_rcpt i')) (report_moves r').
+  Proof.
+    intros H Heq Hs Hcons.
+    destruct (multi_sender_effects E Hc _ _ _ _ H Heq Hcons) as (lst & Hp & _ & Hf & _).
+    { intros Hx. rewrite Hs in Hx. discriminate. }
+    rewrite Hs in Hf. destruct (travel_ok_credits _ _ Hf) as [Hmap Hgood].
+    pose proof (multi_out_accounts_cross E _ _ _ _ _ Hp Hs) as Ho. cbv zeta in Ho.
+    eexists _, _. split; [exact Ho|]. split; [reflexivity|].
+    intros i' s2 o2 s2' Hi' Hne HL H2 Hnn.
+    destruct (emitted_multi_faithful_args E Hc _ _ _ _ _ Hp i' Hi') as (H12 & Hn0 & Hfaith & Hlen).
+    assert (Hc' : codec_ok (cdc E')) by (rewrite Hcdc; exact Hc).
+    set (c := {| wc_cdc := cdc E; wc_shard_of := shard_of E; wc_payable := payable E; wc_dns := dns E;
+                 wc_enable := enable_change E; wc_gas := gas E; wc_nshards := 1%N |}).
+    set (m := {| m_id := 0; m_fn := C.BuiltInFunctionMultiESDTNFTTransfer; m_caller := i_caller i'; m_dest := i_rcpt i';
+                 m_args := i_args i'; m_callType := 0%N; m_gasLimit := 0%N; m_locked := 0%N; m_origin := 0%N;
+                 m_sender := i_caller i' |}).
+    assert (C1 : credits c m = map travel_credit lst).
+    { eapply (emitted_message_credits_multi E Hc c eq_refl m (multi_n_snd i) lst); [apply bigU64_lt|exact Hlen|exact Hgood|reflexivity|exact Hi']. }
+    assert (C2 : credits c m = dst_credits E' (multi_dst_triples i')).
+    { apply (delivered_message_credits_multi E' Hc' c (eq_sym Hcdc) m i' s2 o2 s2' H2 Hne eq_refl eq_refl H12). }
+    assert (Hcr : dst_credits E' (multi_dst_triples i') = debit_list (multi_snd_triples i)) by congruence.
+    assert (Hcn : credits_nonneg E' (multi_dst_triples i')).
+    { unfold credits_nonneg. rewrite Hcr. unfold debit_list. apply Forall_forall. intros kv Hin.
+      apply in_map_iff in Hin as (x & <- & _). cbn [snd]. apply bigZ_nonneg. }
+    destruct (parser_agrees_dest_multi E' Hc' _ _ _ _ H2 Hne HL H12 (multi_faithful_cdc _ Hfaith) Hnn Hcn)
+      as (r' & Hparse & Hr & Hm & Hl & _).
+    exists r'. split; [exact Hparse|]. assert (Hrc : pt_rcv r' = i_rcpt i') by (rewrite Hr; reflexivity).
+    split; [exact Hrc|]. split; [rewrite Hm; exact Hcr|]. rewrite Hrc in Hl. exact Hl.
+  Qed.
+End Delivered.
 
 Print Assumptions parser_agrees_esdt.
 Print Assumptions parser_agrees_sender_nft.
@@ -605,3 +682,5 @@ Print Assumptions emitted_nft_payload_faithful.
 Print Assumptions parser_agrees_sender_multi.
 Print Assumptions parser_agrees_dest_multi.
 Print Assumptions emitted_multi_faithful.
+Print Assumptions forwarded_call_is_reported.
+Print Assumptions delivered_multi_report_is_origin_debits.
